@@ -159,6 +159,7 @@ def run_traced(text, flags="", inputs=(), budget=200, online=False):
     raised = ""
     final_stack = None
     record = {1: "", 2: ""}
+    rec1 = ""
     import builtins
 
     builtins.VY_CANARY = []
@@ -191,6 +192,8 @@ def run_traced(text, flags="", inputs=(), budget=200, online=False):
                 inchg = False
             # (taken now: forcing lazy values below may run -- and abort -- lambda bodies)
             ctxv = _vj(ctx.context_values[-1]) if ctx and ctx.context_values else {"x": "empty"}
+            cap.mark()                 # what the RUN printed: bodies forced below may print as well
+            rec1 = record[1]
             # the module-level stack is the list registered in ctx.stacks[0]; forcing lazy values may
             # run (pure) lambda bodies, so it happens under the stdout capture, the probe budget and an alarm
             try:
@@ -211,7 +214,7 @@ def run_traced(text, flags="", inputs=(), budget=200, online=False):
         events = []  # the run is not evaluated (skip:impl-...); its probes would only cost validation time
     canary = len(getattr(builtins, "VY_CANARY", []))
     events.append({"ev": "Final", "stack": final_stack,
-                   "out": common.cps(record[1] if online else cap.text), "d": d, "raised": raised,
+                   "out": common.cps(rec1 if online else cap.text_at_mark), "d": d, "raised": raised,
                    "host": len(cap.text) if online else 0, "rec2": len(record[2]), "canary": canary,
                    "ctx": ctxv, "inchg": bool(inchg) if holder.get("inputs0") is not None else False})
     return {"text": common.cps(text), "flags": sorted(set(flags)),
